@@ -4,9 +4,12 @@
 set -u
 ID="$1"; N="$2"; NAME="${3:-m$N}"
 WT="/tmp/wt/${ID}_${N}"; OUT="$WT/_out"; DST="/verif/seeded/${ID}-${NAME}"
-if [ -n "$(git -C /repo status --porcelain)" ]; then echo "/repo has uncommitted changes; refusing"; exit 2; fi
+if [ "${SEED_PHASE:-all}" != wt ] && [ -n "$(git -C /repo status --porcelain)" ]; then echo "/repo has uncommitted changes; refusing"; exit 2; fi
 [ -f "$OUT/patch.diff" ] || { echo "no patch in $OUT"; exit 2; }
+PHASE="${SEED_PHASE:-all}"   # all | wt (worktree part only; may run in parallel) | check (reads the wt results)
+CMD="$(cat "$OUT/demo_cmd.txt" | grep -v '^#' | grep -v '^$' | tail -n 1)"
 mkdir -p "$DST"; cp -r "$OUT"/* "$DST"/
+if [ "$PHASE" != check ]; then
 cd "$WT" && git checkout -q -- . 
 CMD="$(cat "$OUT/demo_cmd.txt" | grep -v '^#' | grep -v '^$' | tail -n 1)"
 for c in "$WT"/metrics "$WT"/metrics-util "$WT"/metrics-exporter-* "$WT"/metrics-tracing-context; do mkdir -p "$c/tests"; done
@@ -22,7 +25,11 @@ git -C "$WT" clean -fdq -e _out -e target >/dev/null 2>&1
 ( cd "$WT" && timeout 2400 cargo test --offline --workspace --no-fail-fast --lib --bins --tests 2>&1 | grep -E "^test result|FAILED|failed|error(\[|:)" ) > "$DST/suite_with.log" 2>&1
 SUITE_FAIL=$(grep -c -E "test result: FAILED|^error" "$DST/suite_with.log")
 git -C "$WT" checkout -q -- . ; git -C "$WT" clean -fdq -e _out -e target >/dev/null 2>&1
+echo "$RC0 $RC1 $SUITE_FAIL" > "$DST/.wt_rc"
+fi
+read RC0 RC1 SUITE_FAIL < "$DST/.wt_rc" || { echo "no worktree results"; exit 2; }
 echo "demo without: rc=$RC0 ; demo with: rc=$RC1 ; suite failures with change: $SUITE_FAIL"
+[ "$PHASE" = wt ] && exit 0
 echo "== check against the change"
 git -C /repo apply "$OUT/patch.diff" || { echo "patch does not apply to /repo"; exit 2; }
 ( cd /verif && VERIF_SEED=${VERIF_SEED:-1} ./check "$ID" --tier quick ) > "$DST/check_with.log" 2>&1; RCC=$?
